@@ -1973,3 +1973,48 @@ func (c *Ctl) Op() error { return nil }
 		symxAssert(ok, "C18.front.url-parameter-diagnostic-covers-the-parameter-it-names")
 	}
 }
+
+// C01 through the front end with a symbolic route text: the bytes of the method's @Route value are symbolic from the
+// comment on (annotation regexp, reduction, path normalisation and both emitters run on them); the operation is
+// documented at the normalised prefix + route
+func vh_C01_front_symbolic_route_Q() {
+	seg := symxString("seg", 1, 3, "ab/")
+	route := "/" + seg
+	src := `package ctl
+
+import "github.com/gopher-fleece/runtime"
+
+// @Route(/c/)
+type Ctl struct {
+	runtime.GleeceController
+}
+
+// @Method(GET)
+// @Route(/PLACEHOLDER)
+func (c *Ctl) Op() error { return nil }
+`
+	fr, err := visitors.VhLoadSource(src, func(f *ast.File) {
+		vhPatchDoc(f, "Op", "// @Route(", "// @Route("+route+")")
+	})
+	symxAssert(err == nil, "C01.front.fixture-loads")
+	if err != nil {
+		return
+	}
+	meta, err := pipeline.VhNewPipeline(fr, vhFrontConfig()).Run()
+	symxAssert(err == nil, "C01.front.project-is-accepted")
+	if err != nil {
+		return
+	}
+	doc30, doc31 := vhNewDoc30(), vhNewDoc31()
+	cfg := &definitions.OpenAPIGeneratorConfig{}
+	symxAssert(swagen30.GenerateControllersSpec(doc30, cfg, meta.Flat) == nil && swagen31.GenerateControllersSpec(doc31, cfg, meta.Flat) == nil, "C01.front.documents-no-error")
+	want := vhRefNorm("/c/" + route)
+	symxCover("C01.front.symbolic-route-documented")
+	for vi, ops := range [][]vhOpView{vhOps30(doc30), vhOps31(doc31)} {
+		ver := []string{"30", "31"}[vi]
+		symxAssert(len(ops) == 1, "C01.front."+ver+".exactly-one-operation")
+		if len(ops) == 1 {
+			symxAssert(ops[0].path == want && ops[0].verb == "GET" && ops[0].opId == "Op", "C01.front."+ver+".documented-at-the-normalised-path")
+		}
+	}
+}
